@@ -15,7 +15,10 @@ RULE = ("2-3 threads x 1-3 requests each through the base connection and derived
         "caller-supplied X-Request-ID. Schedules: all single-preemption schedules (run thread a for k opcodes of "
         "ak/conn_http.py, k = 0..len, let thread b run until it finishes or blocks, resume a) for the configurations "
         "2x1, 2x2, 3x2 and 3x3 (parts single_preemption_*, exhaustive), thorough also all double-preemption schedules of the "
-        "2x1 configuration, plus Hypothesis-drawn schedules with 2-5 preemptions biased to the id generator. "
+        "2x1 configuration, plus Hypothesis-drawn schedules with 2-5 preemptions biased to the id generator. Part "
+        "derived_families (one thread): generated trees of up to 7 connections derived through BAuthConn / TokenAuthConn / "
+        "ClientAuthConn / HttpConn with prefix, custom-authentication or several adapters / MCallerHttp clones / add_adapter, "
+        "3-14 requests spread over them with all five HTTP methods; part long_runs: >10000 ids on one connection. "
         "Non-trivial = an execution in which a call of the id generator was preempted and another thread executed "
         "id-generator opcodes before it finished (or, where the lock prevented that, blocked on it); distinct by the "
         "(thread, function, offset) trace restricted to the id generator.")
@@ -144,6 +147,151 @@ def evaluate(case):
                                                     "schedule": case["schedule"], "idgen_calls_interleaved": inter})
 
 
+# ---------------------------------------------------------------------------
+# families of derived connections (one thread): "including every connection derived from it"
+# ---------------------------------------------------------------------------
+
+BUILTIN_AUTH = ("bauth", "token", "client", "clone_bauth")
+FAMILY_KINDS = ["bauth", "token", "client", "prefix", "apikey", "multi", "clone_plain", "clone_bauth", "clone_prefix",
+                "caller_conn", "add_adapter"]
+
+
+def build_family(H, MH, derive):
+    class ApiKeyAdapter(H.RequestAdapter):
+        """authentication that does not use the Authorization header"""
+        AUTH_TYPE = "apikey"
+
+        def process_req_args(self, req_args):
+            req_args.headers["X-Api-Key"] = "k"
+
+        def mk_descr(self):
+            return "with api key"
+    base = H.HttpConn("http://h.invalid")
+    conns = [base]
+    builtin = [False]
+    for pidx, kind in derive:
+        pi = pidx % len(conns)
+        parent = conns[pi]
+        if kind in BUILTIN_AUTH and builtin[pi]:
+            kind = "prefix"      # two built-in authentications in one chain are rejected by the package (assertion)
+        if kind == "bauth":
+            c = H.BAuthConn(parent, "u", "p")
+        elif kind == "token":
+            c = H.TokenAuthConn(parent, "tkn")
+        elif kind == "client":
+            c = H.ClientAuthConn(parent, "cl", "id", "secret")
+        elif kind == "prefix":
+            c = H.HttpConn(parent, adapters=[H.RequestAdapterAddPathPrefix("/api")])
+        elif kind == "apikey":
+            c = H.HttpConn(parent, adapters=ApiKeyAdapter())
+        elif kind == "multi":
+            c = H.HttpConn(parent, adapters=[H.RequestAdapterAddPathPrefix("/v2"), ApiKeyAdapter()])
+        elif kind == "clone_plain":
+            c = MH.MCallerHttp(parent).clone().http_conn
+        elif kind == "clone_bauth":
+            c = MH.MCallerHttp(parent).clone(H.BAuthConn.Adapter("ann", "pw")).http_conn
+        elif kind == "clone_prefix":
+            c = MH.MCallerHttp(parent).clone([H.RequestAdapterAddPathPrefix("/c")]).http_conn
+        elif kind == "caller_conn":
+            c = MH.MCallerHttp(parent).http_conn
+        elif kind == "add_adapter":
+            c = H.HttpConn(parent)
+            c.add_adapter(H.RequestAdapterAddPathPrefix("/late"))
+        else:
+            raise ValueError(kind)
+        conns.append(c)
+        builtin.append(builtin[pi] or kind in BUILTIN_AUTH)
+    return conns
+
+
+def eval_family(case):
+    import urllib.request
+    import ak.conn_http as H
+    import ak.mcaller_http as MH
+    fakehttp.speedup_ssl()
+    sent = []
+    f = []
+
+    def fake_open(_self, request, *a, **kw):
+        sent.append(request)
+        return fakehttp.FakeResponse(request.get_method(), 200, b"")
+    saved = urllib.request.OpenerDirector.open
+    urllib.request.OpenerDirector.open = fake_open
+    try:
+        try:
+            conns = build_family(H, MH, case["derive"])
+        except Exception as e:   # noqa
+            return Outcome(True, [], [("derivation_raises_" + type(e).__name__, f"{case['derive']!r}: {e}")])
+        reqs = list(case["reqs"]) * case.get("repeat", 1)
+        methods = ["get", "post", "put", "delete", "patch"]
+        try:
+            for n, (ci, own) in enumerate(reqs):
+                c = conns[ci % len(conns)]
+                hdrs = {"X-Request-ID": own} if own is not None else None
+                getattr(c, methods[(n + ci) % 5] if case.get("methods") else "get")("/p", headers=hdrs)
+        except Exception as e:   # noqa
+            f.append(("request_raises_" + type(e).__name__, f"request {n} through connection {ci % len(conns)} of "
+                      f"{case['derive']!r}: {e}"))
+    finally:
+        urllib.request.OpenerDirector.open = saved
+    ids = []
+    for rq in sent:
+        h = {k.lower(): v for k, v in rq.header_items()}
+        ids.append(h.get("x-request-id"))
+    gen = [i for i, (ci, own) in zip(ids, reqs) if own is None]
+    sup = [(i, own) for i, (ci, own) in zip(ids, reqs) if own is not None]
+    ctx = f"derive={case['derive']!r} reqs={case['reqs'][:12]!r} x{case.get('repeat', 1)}"
+    if not f:
+        if len(ids) != len(reqs):
+            f.append(("wrong_number_of_requests", f"{len(ids)} sent, {len(reqs)} issued; {ctx}"))
+        elif any(i != own for i, own in sup):
+            f.append(("caller_supplied_id_not_sent_verbatim", f"{[p for p in sup if p[0] != p[1]][:3]!r}; {ctx}"))
+        elif any(not isinstance(i, str) or len(i.split("-")) != 5 for i in gen):
+            f.append(("generated_id_missing_or_malformed", f"{[i for i in gen if not isinstance(i, str) or len(i.split('-')) != 5][:3]!r}; {ctx}"))
+        else:
+            nums = [int(i.split("-")[-1]) for i in gen]
+            if len(set(gen)) != len(gen):
+                seen = set()
+                dup = next(i for i in gen if i in seen or seen.add(i))
+                f.append(("duplicate_request_id", f"{dup!r} sent twice among {len(gen)} requests; {ctx}"))
+            if nums != list(range(len(gen))):
+                bad = next(k for k, v in enumerate(nums) if v != k)
+                f.append(("sequence_number_repeated" if len(set(nums)) != len(nums) else "sequence_number_gap",
+                          f"request {bad} carries number {nums[bad]} (numbers so far {nums[max(0, bad - 3):bad + 1]!r}); {ctx}"))
+            if len({i[:4] for i in gen}) > 1:
+                f.append(("connection_part_differs_between_derived_connections", f"{sorted({i[:4] for i in gen})!r}; {ctx}"))
+    kinds = sorted({k for _, k in case["derive"]})
+    used = {ci % (len(case["derive"]) + 1) for ci, _ in case["reqs"]}
+    classes = ["family_of_%d" % min(len(case["derive"]) + 1, 6)] + ["derived_" + k for k in kinds]
+    if len(reqs) > 10000:
+        classes.append("more_than_10000_requests")
+    depth = 0
+    d = {0: 0}
+    for n, (pidx, kind) in enumerate(case["derive"]):
+        d[n + 1] = d[pidx % (n + 1)] + 1
+        depth = max(depth, d[n + 1])
+    if depth >= 2:
+        classes.append("derivation_depth_ge_2")
+    nt = len(used) >= 2 and len(gen) >= 3
+    return Outcome(nt, classes, f, key=[case["derive"], case["reqs"], case.get("repeat", 1)],
+                   sample={"derive": case["derive"], "reqs": case["reqs"][:10], "repeat": case.get("repeat", 1)})
+
+
+def st_family():
+    idx = st.integers(0, 7)
+    return st.fixed_dictionaries({
+        "derive": st.lists(st.tuples(idx, st.sampled_from(FAMILY_KINDS)).map(list), min_size=1, max_size=6),
+        "reqs": st.lists(st.tuples(idx, st.sampled_from([None, None, None, "own-1", "0000-own"])).map(list), min_size=3, max_size=14),
+        "methods": st.booleans(),
+    })
+
+
+def long_runs():
+    # the sequence number outgrows the 4-digit copy: ids must stay distinct and gapless
+    yield {"derive": [[0, "bauth"], [0, "prefix"]], "reqs": [[0, None], [1, None], [2, None]], "repeat": 3400}
+    yield {"derive": [[0, "clone_plain"]], "reqs": [[1, None], [0, None], [1, "own-1"]], "repeat": 7000}
+
+
 def calibrate(cfg):
     """steps each thread needs when the threads run one after the other; offsets inside the id generator"""
     case = {"kinds": cfg["kinds"], "reqs": cfg["reqs"], "schedule": []}
@@ -226,6 +374,10 @@ def parts(tier):
         Part("single_preemption_3x3", evaluate, enumerate=single_preemption("3x3"), exhaustive=True),
         Part("random_multi_preemption", evaluate, strategy=st_schedules, examples=6000 if tier == "quick" else 200000),
     ]
+    ps.append(Part("derived_families", eval_family, strategy=st_family, examples=4000 if tier == "quick" else 120000,
+                   note="one thread; trees of derived connections (auth, prefix, custom auth adapter, cloned callers, add_adapter)"))
+    ps.append(Part("long_runs", eval_family, enumerate=long_runs, exhaustive=True,
+                   note="more than 10000 generated ids on one underlying connection"))
     if tier == "thorough":
         ps.append(Part("double_preemption_2x1", evaluate, enumerate=double_preemption("2x1"), exhaustive=True,
                        note="every double-preemption schedule of 2 threads x 1 request"))
